@@ -93,6 +93,7 @@ type Result struct {
 	Logs       map[int32][]sarama.VerifSimRecord
 	NewErr     string
 	SyncReturn map[int]string // sync producer: per message "ok p off" | "err ..."
+	SyncBursts [][]int        // sync producer: message ids of every completed SendMessage / SendMessages call, in call order
 }
 
 var retriable = []sarama.KError{sarama.ErrInvalidMessage, sarama.ErrUnknownTopicOrPartition, sarama.ErrLeaderNotAvailable,
@@ -601,6 +602,11 @@ func runSync(sc *Scenario, cfg *sarama.Config, sim *sarama.VerifSim, msgs []*sar
 					}
 				}
 			}
+			var ids []int
+			for _, m := range batch {
+				ids = append(ids, m.Metadata.(int))
+			}
+			res.SyncBursts = append(res.SyncBursts, ids)
 			for _, m := range batch {
 				id := m.Metadata.(int)
 				o, _ := outcomeOf(m, true, nil)
@@ -1166,6 +1172,45 @@ func TraceLines(res *Result) []string {
 	}
 	lines = append(lines, fmt.Sprintf("end %d", closed))
 	return lines
+}
+
+// SyncLines renders a SyncProducer scenario for Model.SyncShim: per completed call, the expectation slots created
+// (message order), the terminal events the async producer emitted for those messages (hook order), and what the
+// call reported for each message; the model answers every read with the content of that message's own slot.
+func SyncLines(res *Result) (ops, answers []string) {
+	if !res.Sc.Sync {
+		return
+	}
+	okOf := map[int]bool{}
+	for _, o := range res.Outcomes {
+		okOf[o.ID] = o.Ok || strings.Contains(o.Err, "verif:")
+	}
+	for _, ids := range res.SyncBursts {
+		in := map[int]bool{}
+		for _, id := range ids {
+			in[id] = true
+			ops, answers = append(ops, fmt.Sprintf("sy submit %d", id)), append(answers, "ok")
+		}
+		for _, e := range res.Events {
+			if !in[e.ID] {
+				continue
+			}
+			switch e.Kind {
+			case "ret.succ":
+				ops, answers = append(ops, fmt.Sprintf("sy event %d ok", e.ID)), append(answers, "ok")
+			case "ret.err", "d.reject":
+				ops, answers = append(ops, fmt.Sprintf("sy event %d err", e.ID)), append(answers, "ok")
+			}
+		}
+		for _, id := range ids {
+			a := "ret err"
+			if okOf[id] {
+				a = "ret ok"
+			}
+			ops, answers = append(ops, fmt.Sprintf("sy read %d", id)), append(answers, a)
+		}
+	}
+	return
 }
 
 // BrokerLines renders the idempotence decisions of the simulated brokers as operation lines for the Lean broker
